@@ -219,6 +219,150 @@ theorem grpcStepOutcome_no_panic (c : GrpcCallCfg) (r : GrpcReply) (code : Nat) 
     simp at heq
     exact runGrpcAsserts_no_panic _ _ _ _ heq.2
 
+theorem stepOutcomeH2_false (f : H2Facts) (c : StepCfg) (r : Reply) : stepOutcomeH2 false f c r = stepOutcome c r := by
+  simp [stepOutcomeH2]
+
+/-- the scenario loop panics exactly when it sends a request the http2 client panics on -/
+theorem shootScenarioH2_panicked (h2 : Bool) (f : H2Facts) (scn : String) (steps : List (StepCfg × Reply)) :
+    (shootScenario scn (steps.map fun (c, r) => { name := c.name, outcome := stepOutcomeH2 h2 f c r })).panicked
+      = scenarioFatal h2 f steps := by
+  induction steps with
+  | nil => simp [shootScenario, scenarioFatal]
+  | cons p rest ih =>
+    obtain ⟨c, r⟩ := p
+    by_cases hp : (!c.prepFails && (h2 && h2Panics f r)) = true
+    · have hs : stepOutcomeH2 h2 f c r = .received 0 .panic := by simp only [stepOutcomeH2, hp, if_true]
+      simp only [List.map_cons, shootScenario, scenarioFatal, stepHttp, hs, hp, if_true]
+    · have hs : stepOutcomeH2 h2 f c r = stepOutcome c r := by simp only [stepOutcomeH2, hp, Bool.false_eq_true, if_false]
+      simp only [List.map_cons, shootScenario, scenarioFatal, stepHttp, hs, hp, Bool.false_eq_true, if_false]
+      cases ho : stepOutcome c r with
+      | prepErr => rfl
+      | doErr e => rfl
+      | bodyErr st e => rfl
+      | received st post =>
+        cases post with
+        | ok => exact ih
+        | err => rfl
+        | panic => exact absurd ho (stepOutcome_no_panic c r st)
+
+/-- outside the fatal condition the http2/scenario gun behaves like the http/scenario gun -/
+theorem scenario_map_eq_of_not_fatal (h2 : Bool) (f : H2Facts) (steps : List (StepCfg × Reply))
+    (h : scenarioFatal h2 f steps = false) (scn : String) :
+    shootScenario scn (steps.map fun (c, r) => { name := c.name, outcome := stepOutcomeH2 h2 f c r })
+      = shootScenario scn (steps.map fun (c, r) => { name := c.name, outcome := stepOutcome c r }) := by
+  induction steps with
+  | nil => rfl
+  | cons p rest ih =>
+    obtain ⟨c, r⟩ := p
+    by_cases hp : (!c.prepFails && (h2 && h2Panics f r)) = true
+    · simp only [scenarioFatal, hp, if_true] at h
+      exact absurd h (by decide)
+    · have hs : stepOutcomeH2 h2 f c r = stepOutcome c r := by simp only [stepOutcomeH2, hp, Bool.false_eq_true, if_false]
+      simp only [scenarioFatal, hp, Bool.false_eq_true, if_false] at h
+      simp only [List.map_cons, shootScenario, stepHttp, hs]
+      cases ho : stepOutcome c r with
+      | prepErr => rfl
+      | doErr e => rfl
+      | bodyErr st e => rfl
+      | received st post =>
+        cases post with
+        | ok =>
+          simp only [ho] at h
+          simp only []
+          rw [ih h]
+        | err => rfl
+        | panic => rfl
+
+theorem scenarioFatal_false (f : H2Facts) (steps : List (StepCfg × Reply)) : scenarioFatal false f steps = false := by
+  induction steps with
+  | nil => rfl
+  | cons p rest ih =>
+    obtain ⟨c, r⟩ := p
+    simp only [scenarioFatal, Bool.false_and, Bool.and_false, Bool.false_eq_true, if_false]
+    split
+    · exact ih
+    · rfl
+
+theorem stepCompleted_iff (c : StepCfg) (r : Reply) :
+    stepCompleted c r = true ↔ ∃ st, stepOutcome c r = .received st .ok := by
+  unfold stepOutcome
+  by_cases hp : c.prepFails = true
+  · cases r <;> simp [stepCompleted, hp]
+  · cases r with
+    | noResponse e => simp [stepCompleted, hp]
+    | brokenBody st e => simp [stepCompleted, hp]
+    | full resp =>
+      simp only [stepCompleted, hp, Bool.not_false, Bool.true_and, beq_iff_eq, Bool.false_eq_true, if_false,
+        StepOutcome.received.injEq]
+      constructor
+      · intro h
+        exact ⟨resp.status, rfl, h⟩
+      · rintro ⟨_, _, h⟩
+        exact h
+
+theorem stepCompleted_prep (c : StepCfg) (r : Reply) (h : stepCompleted c r = true) : c.prepFails = false := by
+  cases r <;> simp_all [stepCompleted]
+
+/-- the http2/scenario gun is in the fatal condition iff the first request it sends to a peer without HTTP/2 is
+reached: all steps before it completed (and, being completed, were not themselves such requests) -/
+theorem scenarioFatal_true_iff (f : H2Facts) (steps : List (StepCfg × Reply)) :
+    scenarioFatal true f steps = true ↔
+      ∃ (i : Nat) (p : StepCfg × Reply), steps[i]? = some p ∧ p.1.prepFails = false ∧ h2Panics f p.2 = true ∧
+        ∀ j, j < i → ∃ q, steps[j]? = some q ∧ stepCompleted q.1 q.2 = true ∧ h2Panics f q.2 = false := by
+  induction steps with
+  | nil => simp [scenarioFatal]
+  | cons p rest ih =>
+    obtain ⟨c, r⟩ := p
+    by_cases hp : (!c.prepFails && (true && h2Panics f r)) = true
+    · simp only [scenarioFatal, hp, if_true, true_iff]
+      simp only [Bool.true_and, Bool.and_eq_true, Bool.not_eq_true'] at hp
+      exact ⟨0, (c, r), rfl, hp.1, hp.2, fun j hj => absurd hj (Nat.not_lt_zero j)⟩
+    · simp only [scenarioFatal, hp, Bool.false_eq_true, if_false]
+      have hp' : ¬ (c.prepFails = false ∧ h2Panics f r = true) := by
+        simpa [Bool.and_eq_true] using hp
+      constructor
+      · intro h
+        cases ho : stepOutcome c r with
+        | prepErr => simp [ho] at h
+        | doErr e => simp [ho] at h
+        | bodyErr st e => simp [ho] at h
+        | received st post =>
+          cases post with
+          | err => simp [ho] at h
+          | panic => simp [ho] at h
+          | ok =>
+            simp only [ho] at h
+            obtain ⟨i, q, hq, hq1, hq2, hall⟩ := ih.mp h
+            have hc : stepCompleted c r = true := (stepCompleted_iff c r).mpr ⟨st, ho⟩
+            refine ⟨i + 1, q, by simpa using hq, hq1, hq2, ?_⟩
+            intro j hj
+            cases j with
+            | zero =>
+              refine ⟨(c, r), rfl, hc, ?_⟩
+              cases hh : h2Panics f r with
+              | false => rfl
+              | true => exact absurd ⟨stepCompleted_prep c r hc, hh⟩ hp'
+            | succ k =>
+              obtain ⟨q', hq', h1, h2⟩ := hall k (by omega)
+              exact ⟨q', by simpa using hq', h1, h2⟩
+      · rintro ⟨i, q, hq, hq1, hq2, hall⟩
+        cases i with
+        | zero =>
+          simp only [List.getElem?_cons_zero, Option.some.injEq] at hq
+          subst hq
+          exact absurd ⟨hq1, hq2⟩ hp'
+        | succ k =>
+          obtain ⟨q0, hq0, hc0, _⟩ := hall 0 (by omega)
+          simp only [List.getElem?_cons_zero, Option.some.injEq] at hq0
+          subst hq0
+          obtain ⟨st, ho⟩ := (stepCompleted_iff c r).mp hc0
+          simp only [ho]
+          apply ih.mpr
+          refine ⟨k, q, by simpa using hq, hq1, hq2, ?_⟩
+          intro j hj
+          obtain ⟨q', hq', h1, h2⟩ := hall (j + 1) (by omega)
+          exact ⟨q', by simpa using hq', h1, h2⟩
+
 theorem run_panicked_iff (g : GunShot) : g.run.panicked = g.documentedFatal := by
   cases g with
   | http h2 facts cfg tag id path reply =>
@@ -230,13 +374,9 @@ theorem run_panicked_iff (g : GunShot) : g.run.panicked = g.documentedFatal := b
       | noResponse e => simp [Reply.httpOutcome, shootHttp]
       | brokenBody st e => simp [Reply.httpOutcome, shootHttp]
       | full r => simp [Reply.httpOutcome, shootHttp]
-  | scenario scn steps =>
+  | scenario h2 facts scn steps =>
     simp only [GunShot.run, GunShot.documentedFatal]
-    apply shootScenario_panicked
-    intro s hs st
-    simp only [List.mem_map] at hs
-    obtain ⟨⟨c, r⟩, _, rfl⟩ := hs
-    exact stepOutcome_no_panic c r st
+    exact shootScenarioH2_panicked h2 facts scn steps
   | grpc tag o => simp [GunShot.run, GunShot.documentedFatal, shootGrpc]
   | grpcScenario scn calls =>
     simp only [GunShot.run, GunShot.documentedFatal]
